@@ -192,6 +192,82 @@ impl Builder {
 //@end
 }
 
+// ---------------------------------------------------------------------------
+// C12, mechanised composition (glue code written here; it CALLS the verified build(),
+// Multiboot2Header::load(), iter() and -- through walk_collect -- TagIter::next): for every
+// builder state whose supplied tags are tags (item_ok), the built header LOADS (so: 8-aligned,
+// magic, length, valid checksum -- load's acceptance condition), its architecture is the chosen
+// one, and its tag walk visits exactly the supplied tag images in the documented order, each
+// byte-identical at its offset, followed by the end tag (type 0, flags 0, size 8) as the last 8 bytes.
+// ---------------------------------------------------------------------------
+pub fn build_load_walk(b: Builder) -> (res: (Ghost<Seq<int>>, Ghost<Seq<u8>>, Ghost<Seq<u8>>, Ghost<HeaderTagISA>))
+    requires
+        panics_allowed(),
+        16 + flat(b.slots()).len() + 8 <= u32::MAX,
+        all_items_ok::<HeaderTagHeader>(b.slots()),
+    ensures ({
+        let offs = res.0@;        // offsets (relative to the first tag) the real iterator visited
+        let payload = res.1@;     // bytes of the loaded header after its 16-byte basic header
+        let end_bytes = res.2@;
+        let items = b.slots().push(end_bytes);
+        &&& end_bytes.len() == 8
+        &&& decode::<HeaderTagHeader>(end_bytes) == (HeaderTagHeader { typ: HeaderTagType::End, flags: HeaderTagFlag::Required, size: 8 })
+        &&& res.3@ == b.arch
+        &&& payload == flat(items)
+        &&& offs == item_offs(items, 0)
+        &&& offs.len() == b.slots().len() + 1
+        &&& forall|k: int| 0 <= k < items.len() ==>
+                payload.subrange(flat(items.take(k)).len() as int, (flat(items.take(k)).len() + (#[trigger] items[k]).len()) as int) == items[k]
+    }),
+{
+    let ghost slots = b.slots();
+    let ghost arch = b.arch;
+    let boxed = b.build();
+    let ghost end_bytes: Seq<u8> = choose|e: Seq<u8>| e.len() == 8
+        && #[trigger] decode::<HeaderTagHeader>(e) == (HeaderTagHeader { typ: HeaderTagType::End, flags: HeaderTagFlag::Required, size: 8 })
+        && obj_bytes(&*boxed).subrange(16, 16 + flat(slots).len() as int + 8) == flat(slots).add(e);
+    let ghost items = slots.push(end_bytes);
+    let ghost total = 16 + flat(slots).len() as int + 8;
+    let ptr = (&*boxed).as_ptr();
+    proof {
+        lemma_hdr_layouts();
+        assert(val_size(&*boxed) as int == total);
+        assert(bh_at_cptr(ptr) == dyn_hdr(&*boxed));
+        assert(total % 8 == 0) by { lemma_round8_props(16 + ref_meta(&*boxed) as int); }
+    }
+    let r = unsafe { Multiboot2Header::load(ptr) };
+    match r {
+        Err(_e) => {
+            // unreachable: the contract of load() accepts the built header
+            proof { assert(false); }
+            (Ghost(Seq::empty()), Ghost(Seq::empty()), Ghost(end_bytes), Ghost(arch))
+        }
+        Ok(h) => {
+            let a = h.arch();
+            let mut it = h.iter();
+            let ghost it0 = it;
+            proof {
+                assert(it0.buffer@ =~= obj_bytes(&*boxed).subrange(16, total));
+                assert(flat(items) == flat(slots).add(end_bytes));
+                assert(it0.buffer@ == flat(items));
+                assert(item_ok::<HeaderTagHeader>(end_bytes)) by {
+                    assert(end_bytes.subrange(0, 8) =~= end_bytes);
+                }
+                assert(all_items_ok::<HeaderTagHeader>(items));
+                lemma_walk_items::<HeaderTagHeader>(it0, items, 0);
+                lemma_flat_take_all(items);
+                lemma_item_offs_len(items, 0);
+                assert forall|k: int| 0 <= k < items.len() implies
+                    it0.buffer@.subrange(flat(items.take(k)).len() as int, (flat(items.take(k)).len() + (#[trigger] items[k]).len()) as int) == items[k] by {
+                    lemma_flat_item_at(items, k);
+                }
+            }
+            let offs = walk_collect(&mut it);
+            (offs, Ghost(it0.buffer@), Ghost(end_bytes), Ghost(a))
+        }
+    }
+}
+
 } // mod hb
 
 } // verus!
